@@ -1025,12 +1025,110 @@ def probes(ctx):
 
 
 # ---------------------------------------------------------------------------------------------
+# Histories within one interpreter session (module-level state must not leak into a simulator)
+# ---------------------------------------------------------------------------------------------
+
+def run_worker(job, timeout=120):
+    """python -m dv.c18_hist in a fresh interpreter on the source tree under check"""
+    import os
+    import subprocess
+    import sys
+    env = dict(os.environ)
+    env["PYTHONPATH"] = "%s:%s" % (os.path.join(core.REPO, "src"), os.path.join(core.ROOT, "py"))
+    env["PYTHONHASHSEED"] = "0"
+    env["PYTHONDONTWRITEBYTECODE"] = "1"
+    try:
+        p = subprocess.run([sys.executable, "-m", "dv.c18_hist"], input=json.dumps(job), env=env, timeout=timeout,
+                           stdout=subprocess.PIPE, stderr=subprocess.PIPE, text=True)
+    except subprocess.TimeoutExpired:
+        return {"error": "timeout"}
+    if p.returncode != 0:
+        return {"error": "worker failed: " + p.stderr[-600:]}
+    try:
+        return json.loads(p.stdout)
+    except ValueError:
+        return {"error": "worker output: " + p.stdout[-300:]}
+
+
+def history_case(rng, tier):
+    from dv import c18_hist
+    kind = rng.choice(["kingman", "kingman", "cc", "cc", "bd", "fbd", "pb"])
+    case = gen_case(rng, tier, kind)
+    if kind == "kingman" and case["N"] < 3:
+        case["N"] = rng.randint(3, 9)
+    steps = c18_hist.gen_steps(rng, case)
+    if rng.random() < 0.5:
+        # a public function used with a non-default parameter over the whole range of lineage counts
+        k = rng.choice([3, 3, 4])
+        hi = (case.get("N") or 8) + 4
+        steps = [["time_to_coalescence", rng.getrandbits(30) + n, n, rng.choice([1, 2.0, None]), k]
+                 for n in range(3, hi)] + steps
+    return {"history": steps, "case": case, "seed": rng.getrandbits(32)}
+
+
+def history_oracle(h):
+    """the simulator under test after the history must behave exactly as in a fresh session"""
+    case, sim = h["case"], h["case"]["sim"]
+    ref = run_worker({"steps": [], "case": case, "seed": h["seed"]})
+    if "error" in ref:
+        return ("history worker (fresh session) failed: %s" % ref["error"], "history-worker-failed")
+    hist = run_worker({"steps": h["history"], "case": case, "seed": h["seed"], "script": ref["scripted"]["script"]})
+    if "error" in hist:
+        return ("history worker failed: %s" % hist["error"], "history-worker-failed")
+    a, b = ref["scripted"], hist["scripted"]
+    ta = strip_taxa(a["out"][1]) if (sim == "cc" and a["out"][0] == "tree") else a["out"]
+    tb = strip_taxa(b["out"][1]) if (sim == "cc" and b["out"][0] == "tree") else b["out"]
+    if b["touched"] or hist["seeded"]["touched"]:
+        return ("%s used the global generator after the history: %s" % (sim, (b["touched"] + hist["seeded"]["touched"])[:2]),
+                "global-rng-touched:" + sim)
+    if ta != tb or a["calls"] != b["calls"] or a["script"] != b["script"]:
+        diff = next((i for i, (x, y) in enumerate(zip(a["calls"], b["calls"])) if x != y), None)
+        what = ("generator call %d: fresh %s / after the history %s" % (diff, a["calls"][diff], b["calls"][diff])
+                if diff is not None else "outcome fresh %s / after the history %s" % (str(a["out"])[:120], str(b["out"])[:120]))
+        return ("%s depends on what was computed earlier in the session (scripted generator, same draws): %s; history: %s"
+                % (sim, what, json.dumps(h["history"])[:300]), "history-dependent:" + sim)
+    x, y = ref["seeded"], hist["seeded"]
+    same = (x["out"] == y["out"]) and (x["newick"] == y["newick"] if sim != "cc" else
+                                       (x["newick"] is None) == (y["newick"] is None))
+    if sim == "cc" and x["newick"] is not None and y["newick"] is not None:
+        same = same and re.sub(r"[A-Za-z_][A-Za-z_0-9]*", "g", x["newick"]) == re.sub(r"[A-Za-z_][A-Za-z_0-9]*", "g", y["newick"])
+    if not same:
+        return ("%s with random.Random(%d) returns a different tree after the history than in a fresh session; history: %s"
+                % (sim, h["seed"], json.dumps(h["history"])[:300]), "history-dependent:" + sim)
+    return None
+
+
+def history_stage(ctx, n, stop_at_first=False, rng=None):
+    from concurrent.futures import ThreadPoolExecutor
+    rng = rng or random.Random(ctx.seed * 104729 + 18)
+    hs = [history_case(rng, ctx.tier) for _ in range(n)]
+    with ThreadPoolExecutor(max_workers=8) as ex:
+        results = list(ex.map(history_oracle, hs))
+    bad = 0
+    for h, v in zip(hs, results):
+        ctx.count("history:" + h["case"]["sim"])
+        if v:
+            bad += 1
+            ctx.violation(v[0], h, key=v[1])
+            if stop_at_first:
+                break
+    ctx.evaluations += len(hs)
+    return len(hs), bad
+
+
+# ---------------------------------------------------------------------------------------------
 # search / run
 # ---------------------------------------------------------------------------------------------
 
 def search(ctx, budget_s):
     t0 = time.time()
     rng = random.Random(ctx.seed + 4242)
+    # histories first: state left behind by earlier public calls in the same session
+    before = len(ctx.violations)
+    nh, _bad = history_stage(ctx, 48 if ctx.tier == "quick" else 200, rng=random.Random(ctx.seed + 99))
+    if len(ctx.violations) > before:
+        return
+    ctx.notes.append("search: %d session histories (polluting public calls, then the simulator; compared with a fresh session), no difference" % nh)
     n = 0
     while time.time() - t0 < budget_s * 0.6 and n < 20000:
         case = gen_case(rng, ctx.tier)
@@ -1092,7 +1190,9 @@ def run(tier, seed, replay=None):
     ]
     if replay:
         r = json.load(open(replay))["replay"]
-        if "case" in r:
+        if "history" in r:
+            print("oracle:", history_oracle(r))
+        elif "case" in r:
             obs = _observe(r["case"])
             print("observed:", json.dumps(obs, default=str)[:3000])
             print("oracle:", oracle(r["case"], obs))
@@ -1180,5 +1280,8 @@ def run(tier, seed, replay=None):
                     sample_fn=lambda c, o: {"case": {k: v for k, v in c.items() if k != "species"}, "draws": len(o["script"]),
                                             "leaves": len(t_leaves(o["out"][1])) if o["out"][0] == "tree" else None})
     seeds_stage(ctx, 200 if tier == "quick" else 10000, 45 if tier == "quick" else 600)
+    nh, nbad = history_stage(ctx, 16 if tier == "quick" else 160)
+    ctx.obligation("session histories: %d (polluting public calls first, then the simulator under test on a scripted "
+                   "and on a seeded generator) agree with a fresh session" % nh, nbad == 0)
     return ctx.finish(level="proof",
-                      rule="scripted cases: simulator, parameters (N from 0/1 upwards, birth>death>=0 plus a few inadmissible, namespaces absent/short/long/with T-labels/case variants, population sizes, species trees with 1-7 species and 0-4 genes each) and a steering policy are drawn from VERIF_SEED; the draws are chosen lazily as small dyadic rationals / indices / permutations and the consumed script is replayed through the Coq model; 15% of the cases are additionally replayed truncated (both sides must report exhaustion); plus a directed small-scope enumeration (every sequence of the first 3 (quick: sample of 120) / 4 (thorough: all, 5 events per step) event choices - birth or death of the k-th extant lineage - for N in 2..4, birth_death_tree and fast_birth_death_tree); a case is non-trivial when it returns a tree with >=3 leaves after >=4 draws; distinct by full case content. Real seeds: random.Random(seed) through the oracle only, each run twice")
+                      rule="scripted cases: simulator, parameters (N from 0/1 upwards, birth>death>=0 plus a few inadmissible, namespaces absent/short/long/with T-labels/case variants, population sizes, species trees with 1-7 species and 0-4 genes each) and a steering policy are drawn from VERIF_SEED; the draws are chosen lazily as small dyadic rationals / indices / permutations and the consumed script is replayed through the Coq model; 15% of the cases are additionally replayed truncated (both sides must report exhaustion); plus a directed small-scope enumeration (every sequence of the first 3 (quick: sample of 120) / 4 (thorough: all, 5 events per step) event choices - birth or death of the k-th extant lineage - for N in 2..4, birth_death_tree and fast_birth_death_tree); a case is non-trivial when it returns a tree with >=3 leaves after >=4 draws; distinct by full case content. Session histories (16 quick / 160 thorough): in a fresh interpreter, 1-5 polluting public calls (time_to_coalescence / discrete_time_to_coalescence / expected_tmrca with non-default n_to_coalesce over ranges of lineage counts, other simulators with other parameters, probability functions, the global generator), then the simulator under test on the scripted draws of a fresh session and on random.Random(seed); outcome, generator call arguments and Newick must equal those of a fresh interpreter. Real seeds: random.Random(seed) through the oracle only, each run twice")
